@@ -174,6 +174,11 @@ def both_polarities(facts):
         n = c.neg()
         if n.key != c.key:
             yield n, (not v)
+        # what a decided compound settles about its parts: a false disjunction makes every disjunct false, a true
+        # conjunction every conjunct true (`if not A or B: raise` passed means A and not B)
+        for c2, v2 in ((c, v), (n, not v)):
+            if (c2.t[0] == "or" and v2 is False) or (c2.t[0] == "and" and v2 is True):
+                yield from both_polarities([(part, v2) for part in flatten(c2, c2.t[0])])
 
 
 def fired(path: Path, pred):
